@@ -13,3 +13,14 @@ func verifYield(label string) {
 		h(label)
 	}
 }
+
+// VerifLockHeld reports whether sp's internal mutex is held at this moment
+// (probed on the real mutex). A yield point reached while it is held lies inside
+// an atomic step and must not be used as a scheduling point.
+func VerifLockHeld(sp *SpinLock) bool {
+	if sp.mu.TryLock() {
+		sp.mu.Unlock()
+		return false
+	}
+	return true
+}
